@@ -7,6 +7,7 @@ Gms/Lemmas/MemTable.lean; the audited property theorems are in `namespace Gms.C1
 -/
 import Gms.Model.MemTable
 import Gms.Lemmas.MemTable
+import Gms.Lemmas.MemTableStmt
 import Gms.Generated.C13
 
 namespace Gms.MemTable
@@ -195,8 +196,6 @@ theorem klDeleteHelper_eq (sch : Schema) (hci : NoCi sch) (t : List Row) (d : Ro
   intro r hr
   exact rowEquals_eq sch hci r d (hty r hr)
 
-theorem mem_of_mem_erase' (a b : Row) (l : List Row) (h : a ∈ l.erase b) : a ∈ l := List.mem_of_mem_erase h
-
 theorem klFoldDelete_eq (sch : Schema) (hci : NoCi sch) (ds t : List Row)
     (hty : ∀ r ∈ t, WellTyped sch r) : ds.foldl (klDeleteHelper sch) t = ds.foldl List.erase t := by
   induction ds generalizing t with
@@ -322,6 +321,40 @@ theorem keyless_acc_refines_multiset (sch : Schema) (t : List Row) (calls : List
 example : ValidCalls [[Val.int 1], [Val.int 1], [Val.int 2]]
     [.del [.int 1], .ins [.int 5], .del [.int 1], .ins [.int 1]] := by
   simp [ValidCalls]
+
+/-! ### Statement level -/
+
+/-- Full statement (`stmt_sequence_refines`): `∀ sch t s, implStmt sch t s ≈ specStmt sch t s` (same
+outcome, same rows up to order) — FALSE on the unchanged code, see the findings below.
+Proved for the statement kinds whose unique checks never meet a pending delete:
+
+**Plain multi-row INSERT** on a keyed table: same outcome (all rows inserted, or ERROR 1062 and
+nothing changed) and same table contents as the Spec, for every table satisfying the key
+invariant and every row list — guards: no case-insensitive column (¬`ci_collation_key`), no prefix
+index (¬`prefix_bytes_vs_chars`), printed keys of the new rows distinguishable
+(¬`pk_print_collision`), key columns not NULL. -/
+theorem insert_stmt_refines_partial (sch : Schema) (hk : sch.keyless = false) (hci : NoCi sch) (hnp : NoPrefix sch)
+    (t rows : List Row) (ht : NoDupPk sch.pk t ∧ ListOK sch t) (hinj : KeyInjOn sch.pk rows)
+    (hnn : ∀ r ∈ rows, hasNullForAnyCols r sch.pk = false) :
+    (implStmt sch t (.insert false rows)).1 = (specStmt sch t (.insert false rows)).1
+      ∧ ((implStmt sch t (.insert false rows)).2).Perm ((specStmt sch t (.insert false rows)).2) :=
+  insert_stmt_refines sch hk hci hnp t rows ht hinj hnn
+
+/-- **DELETE** (WHERE / ORDER BY / LIMIT, and the TRUNCATE rewrite) on a keyed table: the Impl model
+removes exactly the selected rows and reports their number — guards: no case-insensitive column,
+printed keys of the stored rows distinguishable. -/
+theorem delete_stmt_refines_partial (sch : Schema) (hk : sch.keyless = false) (hci : NoCi sch)
+    (t : List Row) (ht : NoDupPk sch.pk t) (hinj : KeyInjOn sch.pk t)
+    (wh : List Cond) (ord : List (Nat × Bool)) (lim : Option Nat) :
+    (implStmt sch t (.delete wh ord lim)).1 = (specStmt sch t (.delete wh ord lim)).1
+      ∧ ((implStmt sch t (.delete wh ord lim)).2).Perm ((specStmt sch t (.delete wh ord lim)).2) :=
+  delete_stmt_refines sch hk hci t ht hinj wh ord lim
+
+/-- non-vacuity of the two statement theorems' hypotheses on a concrete table with a unique index. -/
+example : (implStmt ⟨[{}, {}], [0], [([1], [0])]⟩ [[.int 1, .int 5], [.int 2, .int 6]]
+      (.insert false [[.int 3, .int 7], [.int 4, .int 5]])).1 = .dup
+    ∧ (implStmt ⟨[{}, {}], [0], [([1], [0])]⟩ [[.int 1, .int 5], [.int 2, .int 6]]
+      (.delete [.cmp .ge 1 (.int 6)] [] none)) = (.ok 1 0, [[.int 1, .int 5]]) := by decide
 
 /-! ### Statement level: findings on the unchanged tree (Impl model ≠ Spec) -/
 
